@@ -75,6 +75,21 @@ func (g *G) strLit(v string) Term {
 	return Term{n, SStr}
 }
 
+// strLitValue: the Go string a literal term stands for.
+func (g *G) strLitValue(t Term) (string, bool) {
+	g.mu.Lock()
+	defer g.mu.Unlock()
+	if t.S == "str_empty" {
+		return "", true
+	}
+	for v, n := range g.strlits {
+		if n == t.S {
+			return v, true
+		}
+	}
+	return "", false
+}
+
 // strLitDecls emits declarations and axioms for string literals whose names
 // occur in the given text.
 func (g *G) strLitDecls(body string) string {
@@ -458,6 +473,21 @@ func (ex *Exec) step(s *State, instr ssa.Instruction) []*State {
 		// (DESIGN 3.4(3)); arguments are evaluated, nothing runs.
 		ex.callArgs(s, &in.Call)
 		ex.usedAssume["A-ATOMIC: goroutine bodies verified as separate steps"] = true
+		if in.Call.StaticCallee() == nil && !in.Call.IsInvoke() {
+			// `go f(...)` on a function value (a callback held in a variable or
+			// field): spawning counts as an invocation of f (ghost calls(f)),
+			// and a nil f is a crash of the process
+			var fn Term
+			switch fv := ex.val(s, in.Call.Value).(type) {
+			case FuncV:
+				fn = fv.Ref
+			default:
+				fn = ex.asScalar(fv)
+			}
+			ex.panicObl(s, in, "nilderef", Not(Eq(fn, TNilR)))
+			cnt := s.heapCur("|Fn:calls|", SArray(SRef, SBV(64)))
+			s.heapSet("|Fn:calls|", Store(cnt, fn, BVAdd(Select(cnt, fn), BVLit(1, 64))))
+		}
 		fr.Idx++
 	case *ssa.Store:
 		addr := ex.val(s, in.Addr)
